@@ -769,6 +769,7 @@ func RandomHistory(a *App, mon *Mon, seed int64, n int) *Run {
 		r.InstallModuleService(RandPricing(r.rng, []string{"0", "1", "3", "0.5", "10"}[pick(r.rng, 5)]))
 	}
 	r.SetStateCbKill(r.rng.Intn(5) == 0)
+	r.SetViaApp(r.rng.Intn(2) == 0)
 	r.Begin()
 	g := NewGen(r, act)
 	g.Bootstrap()
